@@ -305,7 +305,12 @@ def check(ctx, rep):
                 if isinstance(n, ast.Assign) and any(isinstance(t, ast.Name) and t.id in names for t in n.targets):
                     texts.append(norm(n.value))
         blob = " | ".join(texts)
-        for what, pat in (("client address", "client_address[0]"), ("protocol class", "type(protocol).__name__"),
-                          ("exception class", "type(exception).__name__")):
-            rep.add("R20d", f"log line carries the {what}", pat in blob, ctx.where(lg),
-                    f"`{pat}` does not reach the logged string" if pat not in blob else "", key=f"R20d|{what}")
+        import re as _re
+
+        p_exc, p_proto = (lg.params + ["exception", "protocol"])[0], (lg.params + ["exception", "protocol"])[1]
+        for what, pat in (("client address", r"client_address\[0\]"),
+                          ("protocol class", rf"(type\({p_proto}\)|{p_proto}\.__class__)\.__(qual)?name__"),
+                          ("exception class", rf"(type\({p_exc}\)|{p_exc}\.__class__)\.__(qual)?name__")):
+            ok = _re.search(pat, blob) is not None
+            rep.add("R20d", f"log line carries the {what}", ok, ctx.where(lg),
+                    "" if ok else f"nothing matching `{pat}` reaches the logged string", key=f"R20d|{what}")
